@@ -22,6 +22,10 @@ CHECKS = {
    text="Four workloads: (ext4) seeded histories biased to Chmod (all 12 bits), Chown (0, 65535, 65536, 2^32-2, -1 = keep), Chtimes (1901..2100 with nanoseconds) and Symlink (1..1000 bytes, around the 59/60 inline limit) interleaved with content writes, every attribute of every entry compared with a reference model live and after re-opening from the device bytes, e2fsck as second opinion; (fat12/16/32) histories of Chtimes (1980..2107, odd seconds), SetHidden/SetSystem/SetReadOnly/SetArchiveBit on files and directories interleaved with writes, every attribute of every entry compared after each step on a re-opened image (a change to one attribute must change nothing else; kinds never swap); (squashfs, iso9660 Rock Ridge) a workspace whose entries get seeded modes incl. setuid/setgid/sticky, uids/gids over the 16/32-bit ranges, mtimes before 1970 (Rock Ridge) and after 2038, symlink targets of 1..4095 bytes (one long component or path-like, relative/absolute), finalized onto the simulated device, re-opened and compared through Stat/ReadLink/Sys.",
    note="Seeded sampling of attribute values and histories; no fault or schedule dimension beyond reopen-from-bytes (the squashfs/ISO parts are input-driven). squashfs times are 1970..2106 (unsigned 32-bit field). Empty path components ('//') in link targets are not generated.",
    technique=TECH+"seeded attribute histories vs reference model with reopen-from-bytes; workspace metadata round trip through Finalize"),
+ "C20": dict(level="exploration", design="§5 C20",
+   text="Images are produced by the reference tools, not by the library: a seeded tree (directories of 0..5000 entries so that dir_index builds one- and two-level hash trees, sparse files of 3..1400 extents so that the extent tree gets leaf blocks and interior nodes, holes incl. files over 4 GiB, fast/slow symlinks, hard links, fifos, user xattrs in the inode and in a block incl. empty values, all 12 mode bits, 16/32-bit owners, times) is packed by mke2fs 1.47.0 -d with a seeded option set (1k/2k/4k blocks, 128/256-byte inodes, ext4/ext3/ext2 style and ext4 without extents, 64bit, flex_bg, metadata_csum or uninit_bg, dir_index, huge_file, sparse_super2, journal; a minority with meta_bg, bigalloc, inline_data, ea_inode), then optionally modified by debugfs -w (rm, write, symlink, mkdir, ea_set, set_inode_field for uid/gid high halves and 34-bit times with nanoseconds, punch, fallocate = unwritten extents); e2fsck -fn must accept the image and debugfs' own extraction must agree with the model before the library is judged. The image is loaded on the simulated device at offset 0 / 1 MiB / 5 GiB and read with ext4.Read, ReadDir, Stat, Open/Read, ReadLink, GetXattr; tree, kinds, sizes, contents (position-dependent non-zero pattern; holes and unwritten ranges must read as zeros), modes, owners, times, targets and xattrs are compared with what was put in. A refusal by ext4.Read is accepted except for the distribution-default mke2fs -t ext4; on images with extent-less files or an exotic feature an error on the affected call is accepted; wrong data never.",
+   note="Seeded sampling over option sets and trees; the trace's ops are the tree entries and debugfs commands, so a failing image is minimised entry by entry. Input- and configuration-driven: there is no fault, schedule or clock dimension in this property. Entries of large directories are all listed but only a sample (about 40) is Stat-ed/read one by one. The library refuses volumes without metadata_csum (accepted as a refusal), so ext2/ext3-style volumes are only reached through -O ^extent with metadata_csum.",
+   technique=TECH+"seeded configuration and tree search against images made by the reference implementation (mke2fs/debugfs), e2fsck and debugfs extraction as oracle guards, simulated device with read accounting"),
  "C18": dict(level="fault_enumeration", design="§5 C18",
    text="Per base image of every filesystem kind (fat12/16/32, ext4 written by the library and by mke2fs, iso9660 plain/Rock Ridge/Joliet, squashfs with several compressors/options), built deterministically on the simulated device: (a) the structural field map of the format (BPB/FSInfo fields, FAT entries incl. self/back links and out-of-range, directory entries; ext4 superblock, group descriptors, inodes, extent headers and entries, directory entries; ISO volume descriptors, root/directory records, path table entries; squashfs superblock fields, table pointers, metadata headers) x boundary values is enumerated; (b) seeded blind pokes of 1/2/4/8 bytes inside the writer's metadata extents (file payload excluded; 300 per image quick, 4000 thorough); (c) device truncation at structure boundaries. Each damaged image is opened, walked and every file Stat-ed and read through a bounded reader under a device-read budget (ReadAt raises once exceeded, which breaks endless read loops), a per-request size bound and a per-call CPU-time bound, with the worker under RLIMIT_AS and its death or hang attributed to the case through a shared-memory marker.",
    note="Field map enumeration is complete per base image; blind pokes are a seeded sample. Budgets: max(20000, 1000x baseline) device reads, request <= 64x image + 1 MiB, 5 s CPU per library call (a timing overrun must reproduce in a fresh process); the walker stops descending after 10 s CPU in total, since the cost of a whole walk is the walker's number of calls times directory size and not a property of one call. Returned data is not judged.",
